@@ -423,6 +423,9 @@ func (g *G) PosPred() xast.Expr {
 		}
 		return &xast.Bin{Op: g.pick(cmpOps, "pop"), L: &xast.Call{Name: "position"}, R: n}
 	case 3:
+		if g.chance(3, "flipl") {
+			return &xast.Bin{Op: g.pick(cmpOps, "pop"), L: &xast.Call{Name: "last"}, R: &xast.Call{Name: "position"}}
+		}
 		return &xast.Bin{Op: g.pick(cmpOps, "pop"), L: &xast.Call{Name: "position"}, R: &xast.Call{Name: "last"}}
 	case 4:
 		return &xast.Call{Name: "last"}
